@@ -168,18 +168,14 @@ func c19ts(r *Rng) int32 {
 func c19msg(r *Rng, big bool) []byte {
 	var n int
 	switch x := r.Intn(20); {
+	case big && x < 10: // the upper end of the property's range and the sizes around it
+		n = r.Pick(2000, 2000, 1999, 1998, 1024, 1000, r.Range(301, 2000))
 	case x < 11:
 		n = r.Range(1, 3)
 	case x < 15:
 		n = r.Range(4, 64)
-	case x < 18:
-		n = r.Range(65, 300)
 	default:
-		if big {
-			n = r.Pick(2000, 1999, 1024, 1000, r.Range(301, 2000), 2000)
-		} else {
-			n = r.Range(65, 300)
-		}
+		n = r.Range(65, 300)
 	}
 	b := make([]byte, n)
 	switch r.Intn(8) {
@@ -292,10 +288,10 @@ func c19Facts(w io.Writer) {
 
 func genC19(r *Rng, tier string, emit func(Case)) {
 	nValid, nMut, nGarb, nEnc := 700, 1400, 900, 150
-	bigEvery := 12
+	bigEvery := 50 // every bigEvery-th stream may carry a message at the upper end of the range (the model reader is quadratic in the line length)
 	if tier == "thorough" {
-		nValid, nMut, nGarb, nEnc = 40000, 80000, 60000, 5000
-		bigEvery = 6
+		nValid, nMut, nGarb, nEnc = 25000, 50000, 40000, 3000
+		bigEvery = 40
 	}
 	mk := func(kind string, data []byte, fr []int, e bool) string {
 		eb := 0
